@@ -13,6 +13,7 @@ RULES = {
     "C11.R2": "linear backward (label typing, input ranks 2..4): input/weight/bias gradients have the shapes of their primals, each guarded by needs_input_grad[i] of the matching forward parameter, returned in order; no constant factor",
     "C11.R6": "the dynamic weight path stays in the autograd graph: no no_grad / set_grad_enabled / inference_mode context and no .detach() / .data around the quantization of self.weight in qweight, forward or qforward",
     "C11.R9": "the twin's parameters keep their own requires_grad flags: from_module copies weight and bias under no_grad and does nothing else to them (rule C08.R4 re-checked: a blanket requires_grad_ makes the bias follow the weight's flag)",
+    "C11.R10": "what a forward saved for its backward is not rewritten: the activation-scale buffers, which the modules hand as they are to the activations they quantize (and the linear function saves), are replaced by calibration, never written in place",
     "C11.R7": "the linear backward contracts dequantized values: no raw payload (._data) enters a matmul there (unscaled codes accumulate beyond the float16 range and would be rounded with another scale order than the forward)",
     "C11.R8": "any input layout: the linear backward flattens the incoming gradient and the saved tensors with reshape, never with view",
     "C11.R3": "no staleness: qweight is a plain property that re-quantizes self.weight on every access while unfrozen",
@@ -48,6 +49,8 @@ def run(chk):
         from ..report import AliasedCheck
         from . import c08
         c08.copy_rule(AliasedCheck(chk, {"C08.R4": "C11.R9"}))
+        from . import c13
+        c13.saved_scale_mutation(chk, "C11.R10")
     raw_payload_backward(chk)
     # R4
     n = 0
